@@ -122,6 +122,10 @@ SOURCE_TIES = {
 }
 
 
+# which other parts' generated text / tie lemmas a part's tie file imports
+PREREQ = {"poisson": ("mz",), "brain": ("mz", "poisson"), "comp": ("espec",), "props": ("espec", "comp"), "element": ("espec", "formula")}
+
+
 # Tie lemmas whose function lies outside what a property speaks about: a mismatch confined to them is recorded in the evidence
 # but does not make that property's check report (the property's own theorems do not go through those functions).
 _ELEM_NOT_PARSING = r"^(mass|calc_min_neutron_shift|calc_max_neutron_shift|isotope_by_shift|index_isotopes|isotope_eq|isotope_partial_cmp)$"
@@ -159,7 +163,23 @@ def source_tie(run, parts=("mz",)):
                       differential run is searched 5x deeper for a failing input; if none is found the check still reports
                       `VIOLATION ... no-failing-input-found`, naming the lemma."""
     res = {}
-    for k in parts:
+    memo = {}
+
+    def status_of(k):
+        """a tie file imports the generated text and the tie lemmas of the parts it builds on (PREREQ): when one of those is not
+        established (a change in THAT file, judged by the checks of the properties anchored there), this part cannot be compiled
+        in strict mode at all -- that says nothing about this part's own source"""
+        if k not in memo:
+            blocked = [(q, status_of(q)["status"]) for q in PREREQ.get(k, ())]
+            blocked = [(q, st) for q, st in blocked if st != "established"]
+            if blocked:
+                memo[k] = {"established": False, "status": "unavailable", "what": SOURCE_TIES[k][2], "failed_ties": [],
+                           "detail": "not checked: it builds on the tie of %s" % ", ".join("`%s` (%s)" % b for b in blocked)}
+            else:
+                memo[k] = eval_part(k)
+        return memo[k]
+
+    def eval_part(k):
         script, target, what = SOURCE_TIES[k]
         rc, out, _ = sh([sys.executable, os.path.join(VERIF, "tools", script)], cwd=VERIF, timeout=300)
         lines = [l for l in out.strip().splitlines() if l.strip()]
@@ -197,7 +217,10 @@ def source_tie(run, parts=("mz",)):
                     status = "mismatch"
                     failed = [target]
                     detail = "%s no longer checks: " % target + " ".join(out2.strip().splitlines()[-4:])
-        res[k] = {"established": status == "established", "status": status, "what": what, "detail": detail[-700:], "failed_ties": failed}
+        return {"established": status == "established", "status": status, "what": what, "detail": detail[-700:], "failed_ties": failed}
+
+    for k in parts:
+        res[k] = status_of(k)
     run.cov.setdefault("source_level_tie", {}).update(res)
     for k, r in res.items():
         if r["established"]:
